@@ -737,8 +737,8 @@ class Fxp():
             raise ValueError('Not supported input type: {}'.format(type(val)))
 
         # convert to (numpy) ndarray
-        if isinstance(val, int) and not (-2**63 <= val < 2**63):
-            # a Python integer outside the int64 range is kept exact (np.array would turn it into uint64 or float64)
+        if isinstance(val, (int, list, tuple)) and utils.has_big_int(val):
+            # Python integers outside the int64 range are kept exact (np.array would turn them into uint64 or float64)
             val = np.array(val, dtype=object)
         else:
             val = np.array(val)
